@@ -1,6 +1,77 @@
-(* Ops/C08.v — protocol entry points for property C08 (stub until the model is built). *)
-From Coq Require Import List String.
-From PrefVerif Require Import Lib.Val.
-Import ListNotations.
+(* Ops/C08.v — protocol entry points for the categorical file model (C08; reused by C10 / C16).
 
-Definition ops : optable := [].
+   Encoding of an instance (both directions), a list of 9 items:
+     ( (file_name title description data_type modification_type relates_to related_files
+        publication_date modification_date)            nine texts
+       num_alternatives num_voters
+       ((alt name) ...)                               alternatives_name in insertion order
+       num_unique_preferences num_categories
+       ((cat name) ...)                               categories_name in insertion order
+       (ballot ...)                                   preferences; ballot = ((alt ...) ...)
+       ((ballot mult) ...) )                          multiplicity in insertion order
+   text = list of code points.  reserved_names is internal parser state and is not transmitted. *)
+From Coq Require Import List ZArith NArith String.
+From PrefVerif Require Import Lib.Val Lib.Dec Lib.PyStr Model.Meta Model.CatIO.
+Import ListNotations.
+Open Scope string_scope.
+
+Definition d_text (v : val) : text := dlist dN v.
+Definition e_text (t : text) : val := elist eN t.
+Definition d_ballot (v : val) : ballot := dlist (dlist dN) v.
+Definition e_ballot (b : ballot) : val := elist (elist eN) b.
+
+Definition d_meta (texts : val) (na nv : val) (alts : val) : meta :=
+  mkMeta (d_text (dnth 0 texts)) (d_text (dnth 1 texts)) (d_text (dnth 2 texts)) (d_text (dnth 3 texts))
+         (d_text (dnth 4 texts)) (d_text (dnth 5 texts)) (d_text (dnth 6 texts)) (d_text (dnth 7 texts))
+         (d_text (dnth 8 texts)) (dN na) (dN nv) (dlist (dpair dN d_text) alts) [].
+
+Definition d_cinst (v : val) : cinst :=
+  mkCinst (d_meta (dnth 0 v) (dnth 1 v) (dnth 2 v) (dnth 3 v))
+          (dN (dnth 4 v)) (dN (dnth 5 v)) (dlist (dpair dN d_text) (dnth 6 v))
+          (dlist d_ballot (dnth 7 v)) (dlist (dpair d_ballot dN) (dnth 8 v)).
+
+Definition e_cinst (i : cinst) : val :=
+  let m := c_meta i in
+  VL [ VL (map e_text [file_name m; title m; description m; data_type m; modification_type m;
+                       relates_to m; related_files m; publication_date m; modification_date m]);
+       eN (num_alternatives m); eN (num_voters m); elist (epair eN e_text) (alt_names m);
+       eN (c_num_unique i); eN (c_num_categories i); elist (epair eN e_text) (c_cat_names i);
+       elist e_ballot (c_prefs i); elist (epair e_ballot eN) (c_mult i) ].
+
+(* c08.write : instance -> (0 text) | (1 5) when a ballot has no entry in the multiplicity table *)
+Definition op_write (v : val) : val := eresult e_text (cat_write_checked (d_cinst v)).
+
+(* c08.sorted_view : instance -> instance as the parser rebuilds it from the written file *)
+Definition op_sorted_view (v : val) : val := e_cinst (sorted_view (d_cinst v)).
+
+(* the object state parse_file / parse_str leave before parse_lines: file_name and data_type *)
+Definition start_meta (fname dtype : text) : meta := set_file_name (meta0 dtype) fname.
+
+(* c08.parse_lines : (autocorrect header_only file_name data_type (line ...)) *)
+Definition op_parse_lines (v : val) : val :=
+  eresult e_cinst (cat_parse (dbool (dnth 0 v)) (dbool (dnth 1 v))
+                             (start_meta (d_text (dnth 2 v)) (d_text (dnth 3 v)))
+                             (dlist d_text (dnth 4 v))).
+
+(* c08.parse : (autocorrect header_only mode file_name data_type text)
+   mode 0 = file.readlines() (parse_file), 1 = str.splitlines() (parse_str), 2 = parse_url's lines *)
+Definition split_mode (mode : nat) (t : text) : list text :=
+  match mode with 0 => readlines t | 1 => splitlines t | _ => urllines t end.
+Definition op_parse (v : val) : val :=
+  eresult e_cinst (cat_parse (dbool (dnth 0 v)) (dbool (dnth 1 v))
+                             (start_meta (d_text (dnth 3 v)) (d_text (dnth 4 v)))
+                             (split_mode (dnat (dnth 2 v)) (d_text (dnth 5 v)))).
+
+(* c08.tokenize : text -> (token ...)        re.findall(pref_pattern, text) *)
+Definition op_tokenize (v : val) : val := elist e_text (tokenize (d_text v)).
+
+(* c08.pref : text -> ballot                  the part of a ballot line after the colon *)
+Definition op_pref (v : val) : val := eresult e_ballot (parse_pref (d_text v)).
+
+(* c08.line : ((ballot mult) ...) ballot -> text       one written ballot line *)
+Definition op_line (v : val) : val :=
+  e_text (ballot_line (dlist (dpair d_ballot dN) (dnth 0 v)) (d_ballot (dnth 1 v))).
+
+Definition ops : optable :=
+  [ ("c08.write", op_write); ("c08.sorted_view", op_sorted_view); ("c08.parse_lines", op_parse_lines);
+    ("c08.parse", op_parse); ("c08.tokenize", op_tokenize); ("c08.pref", op_pref); ("c08.line", op_line) ].
